@@ -383,6 +383,61 @@ def run_chunk(chunk):
     return res
 
 
+RS_QUANTS = ["all", "any", "none", Int(0), Int(1), Int(2), Int(3), ("%", Int(1)), ("%", Int(34)), ("%", Int(50)), ("%", Int(67)), ("%", Int(100))]
+RS_SETS = [("(a_*)", ["a_0", "a_1", "a_2"]), ("(a_0, a_2)", ["a_0", "a_2"]), ("(a_1, b_*)", ["a_1", "b_0", "b_1"]), ("(b_*, a_*)", ["b_0", "b_1", "a_0", "a_1", "a_2"]), ("(a_2)", ["a_2"])]
+RS_NAMES = ["a_0", "a_1", "a_2", "b_0", "b_1"]
+
+
+def ruleset_chunk(pad):
+    """`Q of (<rule set>)` and plain rule references with the referenced rules at index pad.. of the compilation (the per-rule match bits live in 64-bit
+    words: positions 0, 1, 31/32, 63/64 are the edges); the referenced rules read one byte each, so 32 buffers give every truth assignment"""
+    from refcond import RulesOf, RuleRef
+    w = yv.get_worker("plain")
+    text = ["rule p%d { condition: %s }" % (i, "true" if i % 3 == 0 else "false") for i in range(pad)]
+    text += ["rule %s { condition: uint8(%d) == 0x31 }" % (n, i) for i, n in enumerate(RS_NAMES)]
+    probes = []
+    for (st, names) in RS_SETS:
+        for q in RS_QUANTS:
+            probes.append(RulesOf(q, names, st)); probes.append(Un("not", RulesOf(q, names, st)))
+    probes += [Bin("and", RuleRef("a_0"), Un("not", RuleRef("a_1"))), Bin("or", RuleRef("b_1"), RuleRef("a_2")), Un("defined", RuleRef("a_1")),
+               Bin("and", RulesOf(Int(2), ["a_0", "a_1", "a_2"], "(a_*)"), RuleRef("b_0"))]
+    text += ["rule q%d { condition: %s }" % (i, e.s()) for i, e in enumerate(probes)]
+    bufs = [bytes(0x31 if (m >> i) & 1 else 0x30 for i in range(5)) for m in range(32)]
+    cmds = ["reset", "compiler 0", "add 0 - " + yv.hx("\n".join(text)), "getrules 0 0", "cdestroy 0", "scanner 0 0"]
+    rep = w.batch(cmds + ["scan target=s0 via=mem ml=0 data=" + yv.hx(b) for b in bufs])
+    out = []
+    if rep[2]["errors"]:
+        return pad, [("C04:well-typed-condition-rejected:ruleset-of", dict(pad=pad, messages=rep[2]["msgs"][:2]))], 0
+    n = 0
+    for b, r in zip(bufs, rep[len(cmds):]):
+        got = {m[1].split(":")[1]: m[0] == "m" for m in r["t"] if m[0] in ("m", "n")}
+        truth = {nm: b[i] == 0x31 for i, nm in enumerate(RS_NAMES)}
+        c = Ctx(b, {}, {}, rules=truth)
+        for i, e in enumerate(probes):
+            n += 1
+            exp = verdict(e, c)
+            if got.get("q%d" % i) != exp:
+                out.append(("C04:verdict:ruleset-of:" + ("rule-index>=32" if pad + 5 > 32 else "rule-index<32"),
+                            dict(condition=e.s(), rules_before=pad, truth=truth, expected=exp, observed=got.get("q%d" % i),
+                                 replay="%d padding rules, then a_0..a_2, b_0, b_1 with `uint8(i) == 0x31`, then rule q { condition: %s } on buffer %s" % (pad, e.s(), b.hex()))))
+                break
+        for nm in RS_NAMES:
+            if got.get(nm) != truth[nm]:
+                out.append(("C04:verdict:ruleset-of:referenced-rule", dict(rule=nm, rules_before=pad, buffer=b.hex()))); break
+    return pad, out, n
+
+
+def ruleset_family(ck, quick):
+    pads = [0, 1, 2, 7, 26, 27, 28, 29, 30, 31, 32, 33, 58, 59, 60, 61, 62, 63, 64, 65, 127] if quick else list(range(0, 200))
+    n = 0
+    for pad, viol, k in yv.pmap(ruleset_chunk, pads, ck):
+        n += k
+        for sig, d in viol: ck.violation(sig, d)
+    ck.cov["evaluations"] += n
+    ck.sub("ruleset-of", paddings=len(pads), evaluations=n, note="Q of (rule set) / rule references with the referenced rules at every position of the per-rule match bitmap words; 32 truth assignments each")
+    return n
+
+
 def main():
     ck = yv.Check("C04", "exploration")
     quick = ck.tier == "quick"
@@ -434,6 +489,7 @@ def main():
             else:
                 if idx % 4001 == 0: ck.sample(dict(condition=src, verdicts_per_buffer=exp))
     ck.cov["subspaces"].update(sub)
+    nontriv += ruleset_family(ck, quick) // 32
     ck.cov["distinct_nontrivial"] = nontriv
     ck.cov["programs"] = len(work)
     ck.cov["rule"] = ("programs = the union of 7 complete sub-spaces (operator tables over %d boundary values in non-constant form, precedence/associativity "
